@@ -76,12 +76,24 @@ func othersQuiescent(buf []byte) (bool, string) {
 		if j := strings.IndexByte(st, ','); j >= 0 {
 			st = st[:j]
 		}
-		switch st {
-		case "running", "runnable", "syscall", "preempted", "copystack", "sleep", "waiting", "idle", "dead":
+		if !blockedStates[st] {
 			return false, st
 		}
 	}
 	return true, ""
+}
+
+// blockedStates: the goroutine states (runtime wait reasons, go1.23 runtime2.go) in which a goroutine stays until ANOTHER
+// goroutine does something for it.  Everything else counts as "can still move": running / runnable / syscall /
+// preempted / sleep, and also the transient waits a busy goroutine passes through on its own, e.g. "GC assist wait",
+// "GC assist marking", "wait for GC cycle" — a caller caught in one of those during the dump used to look "blocked on
+// a lock" (a deny-list of states was used), which under memory/CPU pressure could misattribute an event.  An unknown
+// state can only delay the quiescence verdict, never produce a wrong one.
+var blockedStates = map[string]bool{
+	"chan receive": true, "chan send": true, "select": true,
+	"chan receive (nil chan)": true, "chan send (nil chan)": true, "select (no cases)": true,
+	"semacquire": true, "sync.Mutex.Lock": true, "sync.RWMutex.RLock": true, "sync.RWMutex.Lock": true,
+	"sync.Cond.Wait": true, "sync.WaitGroup.Wait": true, "IO wait": true, "finalizer wait": true,
 }
 
 // ---------------------------------------------------------------- decorated DB
@@ -240,7 +252,7 @@ func (c *controller) runSchedule(calls []func() callResult, sched []int) (events
 	// settle waits until the system is quiescent and attributes what happened. cur = stepping caller,
 	// fromStart = the step started it.
 	settle := func(cur int, fromStart bool) error {
-		deadline := time.Now().Add(20 * time.Second)
+		deadline := time.Now().Add(60 * time.Second)
 		handleArrival := func(a arrival) error {
 			who := cur
 			if a.kind == "begin" && !(fromStart && cs[cur].st == csNotStarted) {
@@ -383,7 +395,7 @@ func (c *controller) runSchedule(calls []func() callResult, sched []int) (events
 				started++
 			}
 		}
-		tm := time.After(20 * time.Second)
+		tm := time.After(60 * time.Second)
 		for started > 0 {
 			select {
 			case a := <-c.arrivals:
